@@ -132,4 +132,24 @@ UpdateBadInfeasible(ns, ranges, G) ==
 UpdateBad(ns, ranges, G, rr) ==
   FindBad2(Mem(ranges[1]), Col2(ranges),
            LAMBDA a, b : Sat(ns, G, a, b) /\ ~(In(a, rr[1]) /\ (Len(rr) < 2 \/ In(b, rr[2]))))
+
+-----------------------------------------------------------------------------
+(* NullableInterval: an interval plus NULL-ness: nk = "null" (always NULL), "maybe" (NULL or a value of iv),      *)
+(* "notnull" (a value of iv).  NULL is the sentinel NULLV; operators follow SQL three-valued logic.               *)
+NULLV == 1999999999
+NMem(N) == IF N.nk = "null" THEN {NULLV} ELSE Mem(N.iv) \cup (IF N.nk = "maybe" THEN {NULLV} ELSE {})
+NIn(v, N) == IF v = NULLV THEN N.nk \in {"null", "maybe"} ELSE N.nk # "null" /\ In(v, N.iv)
+NBinVal(op, rt, x, y) ==
+  CASE op = "and" -> IF x = 0 \/ y = 0 THEN 0 ELSE IF x = NULLV \/ y = NULLV THEN NULLV ELSE 1
+    [] op = "or" -> IF x = 1 \/ y = 1 THEN 1 ELSE IF x = NULLV \/ y = NULLV THEN NULLV ELSE 0
+    [] op = "isdistinct" -> IF x = NULLV /\ y = NULLV THEN 0 ELSE IF x = NULLV \/ y = NULLV THEN 1 ELSE B2I(x # y)
+    [] op = "isnotdistinct" -> IF x = NULLV /\ y = NULLV THEN 1 ELSE IF x = NULLV \/ y = NULLV THEN 0 ELSE B2I(x = y)
+    [] OTHER -> IF x = NULLV \/ y = NULLV THEN NULLV ELSE BinVal(op, rt, x, y)
+NUnVal(op, x) ==
+  CASE op = "not" -> IF x = NULLV THEN NULLV ELSE 1 - x
+    [] op = "is_true" -> B2I(x = 1)
+    [] op = "is_false" -> B2I(x = 0)
+    [] op = "is_unknown" -> B2I(x = NULLV)
+NBinBad(op, rt, A, B, R) == FindBad2(NMem(A), NMem(B), LAMBDA a, b : LET v == NBinVal(op, rt, a, b) IN v # UNDEF /\ ~NIn(v, R))
+NUnBad(op, A, R) == FindBad2(NMem(A), {0}, LAMBDA a, b : ~NIn(NUnVal(op, a), R))
 =============================================================================
